@@ -494,9 +494,9 @@ def adversarial_for(wire_type):
     if wire_type in ('octet', 'short', 'long', 'longlong'):
         return INTS + WRONG
     if wire_type == 'shortstr':
-        return STRINGS + WRONG
+        return STRINGS + A.LOOKALIKES + WRONG
     if wire_type == 'longstr':
-        return LONGSTRINGS + WRONG
+        return LONGSTRINGS + A.LOOKALIKES + WRONG
     if wire_type == 'table':
         return TABLES
     if wire_type == 'timestamp':
